@@ -194,8 +194,7 @@ fn ek(e: &impl std::fmt::Debug) -> String {
 
 /// Reset `dir` to exactly the crash image (directory is reused by one worker thread).
 fn reset_dir(dir: &Path, img: &DirImage) {
-    let _ = std::fs::remove_dir_all(dir);
-    img.materialise(dir);
+    img.materialise_over(dir);
 }
 
 /// Phase 1 for one crash point: pure-bytes recovery in both modes, read-only and writable
@@ -291,7 +290,9 @@ pub fn check_point(dir: &Path, log: &BuiltLog, p: &Point, st: &mut Stats) -> Opt
         }
     }
 
-    // (e) open the crashed directory as a store (ledger is read and reconciled with the commits)
+    // (e) open the crashed directory as a store (ledger is read and reconciled with the commits);
+    // what it reconciles depends on (ledger version, k) only: every boundary image + every 16th interior byte
+    if clean || p.l % 16 == 0 {
     match mc::catch(|| FilesystemWalStore::open(dir, seg1).map(|s| s.read_commits().len())) {
         Err(pm) => cx.fail(st, "open", "panic".into(), json!(pm)),
         Ok(Err(e)) => cx.fail(st, "open", format!("err:{}", ek(&e)), json!(format!("{e:?}"))),
@@ -300,6 +301,7 @@ pub fn check_point(dir: &Path, log: &BuiltLog, p: &Point, st: &mut Stats) -> Opt
                 cx.fail(st, "open", "commit-count".into(), json!(n));
             }
         }
+    }
     }
 
     // (f) writable recovery
@@ -483,6 +485,13 @@ pub fn run(r: &Report) -> Vec<BuiltLog> {
     let depth = r.pick(3, 4);
     let logs = match build_all(&scratch, r.quick(), 0) {
         Ok(l) => l,
+        Err(e) if e.contains("ACK-VIOLATION") => {
+            r.violation(
+                "store:ack-not-durable:acknowledged-transaction-not-recoverable-from-live-directory",
+                json!({"case": {"layer": "store-ack"}, "observed": e}),
+            );
+            return Vec::new();
+        }
         Err(e) => {
             r.machinery_error(&format!("store workload build failed: {e}"));
             return Vec::new();
